@@ -88,6 +88,8 @@ Proof.
   - right. left. split; [reflexivity|intros; discriminate].
   - right. left. split; [reflexivity|intros; discriminate].
   - right. left. split; [|intros; discriminate]. apply advance_keeps.
+  - right. left. split; [|intros; discriminate]. unfold dcloseq. destruct (negb _); reflexivity.
+  - right. left. split; [|intros; discriminate]. unfold dregister. destruct (_ && _); reflexivity.
 Qed.
 
 Lemma advance_first : forall cfg n s q,
@@ -142,6 +144,8 @@ Proof.
   - left. split; reflexivity.
   - left. split; reflexivity.
   - left. apply advance_first.
+  - left. unfold dcloseq. destruct (negb _); split; reflexivity.
+  - left. unfold dregister. destruct (_ && _); split; reflexivity.
 Qed.
 
 Lemma advance_now : forall cfg n s, now s <= now (advance cfg s n).
@@ -161,6 +165,8 @@ Proof.
   - unfold dremove. destruct (negb _); cbn; lia.
   - unfold dclose. destruct (negb _); cbn; lia.
   - apply advance_now.
+  - unfold dcloseq. destruct (negb _); cbn; lia.
+  - unfold dregister. destruct (_ && _); cbn; lia.
 Qed.
 
 (* ---- sums over the candidate list --------------------------------------------------------- *)
